@@ -74,10 +74,9 @@ func H_C14_release() {
 	c2s := make(chan *Rpc, tcap)
 	s2c := make(chan *Rpc, tcap)
 	flaky := &zzFlaky{rw: NewGoatOverChannel(s2c, c2s)}
-	h := newHandler(srv.ctx, srv, NewGoatOverChannel(c2s, s2c))
 	go func() {
 		vfHarnessGoroutine()
-		h.serve(context.Background())
+		srv.Serve(context.Background(), NewGoatOverChannel(c2s, s2c))
 	}()
 	cc := NewClientConn(flaky, "cli", "srv")
 	bidi := &grpc.StreamDesc{ClientStreams: true, ServerStreams: true}
@@ -161,13 +160,21 @@ func H_C14_release() {
 		if !done {
 			return
 		}
-		vfAssert(vfFieldLen(cc, "mp.handlers") == base, "client-registry-back-to-its-previous-size")
+		// registries are reached by name (the client's through the connection, the server's by a heap
+		// walk for its per-connection handler); -1 = this tree has no such names, the goroutine
+		// census below still applies
+		creg := vfFieldLen(cc, "mp.handlers")
+		vfAssert(creg < 0 || creg == base, "client-registry-back-to-its-previous-size")
 		if outcome == 7 {
 			// the server never learns about the cancellation (the reset could not be written): only the client side is checked
 			vfReach("checked")
 			return
 		}
-		vfAssert(vfFieldLen(h, "streams") == base, "server-registry-back-to-its-previous-size")
+		sreg := vfHeapFieldLen("handler", "streams")
+		vfAssert(sreg < 0 || sreg == base, "server-registry-back-to-its-previous-size")
+		if creg >= 0 && sreg >= 0 {
+			vfReach("registries-inspected")
+		}
 		// goroutines: the idle level measured after the warm-up call plus, with a pre-existing
 		// stream, its client read loop and its server handler
 		vfAssert(vfCensus() == idleLevel+2*base, "goroutines-back-to-the-idle-level")
